@@ -1,5 +1,135 @@
-/- Engine `argval` (C16): not built yet. -/
+/-
+  Engine `argval` (C16).  Op line: `<list> <list> [<list>] [tokens starting with '=' or '#' …]`
+  (cell syntax: see harness/argval.cpp).  Output:
+  `E <eq of every ordered pair> C <sign of cmp> I <iteration>;… M <avmessage bytes> …`
+-/
+import RtoscModel.ArgVal.Cmp
+import RtoscModel.ArgVal.Msg
 import Driver.Common
 namespace Driver.ArgvalEngine
-def engine : Driver.Engine := Driver.stateless (fun _ => "unimplemented")
+open Rtosc Rtosc.ArgVal
+
+def fuel : Nat := 100000000
+
+def hexNat (s : String) : Option Nat :=
+  s.toList.foldlM (fun acc c => (hexVal c).map (fun d => acc * 16 + d)) 0
+
+def parseCell (t : String) : Option Cell :=
+  match t.toList with
+  | [] => none
+  | k :: rest =>
+    let r := String.ofList rest
+    if k = 'i' then r.toInt?.map (Cell.int .i)
+    else if k = 'c' then r.toInt?.map (Cell.int .c)
+    else if k = 'r' then r.toInt?.map (Cell.int .r)
+    else if k = 'h' then r.toInt?.map Cell.huge
+    else if k = 't' then r.toNat?.map Cell.time
+    else if k = 'f' then (if rest.length = 8 then (hexNat r).map (fun n => Cell.flt (UInt32.ofNat n)) else none)
+    else if k = 'd' then (if rest.length = 16 then (hexNat r).map (fun n => Cell.dbl (UInt64.ofNat n)) else none)
+    else if k = 'm' then
+      match ofHex r with
+      | some [a, b, c, d] => some (Cell.midi a b c d)
+      | _ => none
+    else if k = 's' ∨ k = 'S' then
+      let ty : StrTy := if k = 's' then .s else .S
+      if r = "~" then some (Cell.str ty none) else (ofHex r).map (fun b => Cell.str ty (some b))
+    else if k = 'b' then (ofHex r).map Cell.blob
+    else if k = 'T' then (if rest.isEmpty then some (Cell.flag .T) else none)
+    else if k = 'F' then (if rest.isEmpty then some (Cell.flag .F) else none)
+    else if k = 'N' then (if rest.isEmpty then some (Cell.flag .N) else none)
+    else if k = 'I' then (if rest.isEmpty then some (Cell.flag .I) else none)
+    else if k = 'a' then
+      match r.splitOn "." with
+      | [ty, len] =>
+        match ofHex ty, len.toInt? with
+        | some [b], some l => some (Cell.arr b l)
+        | _, _ => none
+      | _ => none
+    else if k = '-' then
+      match r.splitOn "." with
+      | [num, hd] =>
+        match num.toInt?, hd.toInt? with
+        | some n, some h => some (Cell.rep n h)
+        | _, _ => none
+      | _ => none
+    else none
+
+def parseList (tok : String) : Option (List Cell) :=
+  if tok = "-" then some [] else (tok.splitOn ",").mapM parseCell
+
+def hex32 (v : UInt32) : String :=
+  String.join (([24, 16, 8, 0] : List UInt32).map fun s => hexByte (v >>> s).toUInt8)
+def hex64 (v : UInt64) : String :=
+  String.join (([56, 48, 40, 32, 24, 16, 8, 0] : List UInt64).map fun s => hexByte (v >>> s).toUInt8)
+
+def showCell : Cell → String
+  | .int .i v => s!"i{v}"
+  | .int .c v => s!"c{v}"
+  | .int .r v => s!"r{v}"
+  | .huge v => s!"h{v}"
+  | .time v => s!"t{v}"
+  | .flt b => "f" ++ hex32 b
+  | .dbl b => "d" ++ hex64 b
+  | .midi a b c d => "m" ++ toHex [a, b, c, d]
+  | .str ty none => (if ty = .s then "s" else "S") ++ "~"
+  | .str ty (some s) => (if ty = .s then "s" else "S") ++ toHex (cstrOf s)
+  | .blob d => "b" ++ toHex d
+  | .flag .T => "T"
+  | .flag .F => "F"
+  | .flag .N => "N"
+  | .flag .I => "I"
+  | .arr ty len => s!"a{hexByte ty}.{len}"
+  | .rep n h => s!"-{n}.{h}"
+
+def showErr : Err → String
+  | .oob => "!oob" | .undef => "!undef" | .overflow => "!overflow" | .exit => "!exit"
+  | .nan => "!nan" | .fuel => "!fuel"
+
+def showRes {α} (f : α → String) : Res α → String
+  | .ok a => f a
+  | .error e => showErr e
+
+/-- walk a list and print what the iterator yields; a yielded array is printed with the
+    iteration of its own cells -/
+partial def showIter (l : List Cell) (size : Nat) : String :=
+  match iterate fuel (Itr.init l) size with
+  | .error e => showErr e
+  | .ok ps =>
+    ",".intercalate (ps.map fun p =>
+      match p with
+      | [] => "!oob"
+      | .arr ty len :: rest => s!"a{hexByte ty}[{showIter rest len.toNat}]"
+      | c :: _ => showCell c)
+
+def hasInf (l : List Cell) : Bool := l.any fun c => match c with | .rep 0 _ => true | _ => false
+def hasNull (l : List Cell) : Bool := l.any fun c => match c with | .str _ none => true | _ => false
+
+def showMsg (l : List Cell) : String :=
+  if hasInf l then "inf" else if hasNull l then "null" else
+  match avmessage fuel none [47, 112] l.length l with
+  | .error e => showErr e
+  | .ok none => "!undef"
+  | .ok (some r0) =>
+    match avmessage fuel (some (List.replicate r0.ret 170)) [47, 112] l.length l with
+    | .ok (some ⟨some buf, ret, false⟩) => if ret = 0 then "toolong" else toHex (buf.take ret)
+    | .ok (some ⟨_, _, true⟩) => "!write-oob"
+    | .ok _ => "!undef"
+    | .error e => showErr e
+
+def step (line : String) : String :=
+  let ws := (words line).takeWhile fun t => !(t.startsWith "=" || t.startsWith "#")
+  match ws.mapM parseList with
+  | none => "bad-op"
+  | some ls =>
+    if ls.length < 1 ∨ ls.length > 3 then "bad-op" else
+    let pairs := ls.flatMap fun x => ls.map fun y => (x, y)
+    let e := pairs.map fun (x, y) => showRes (fun (b : Bool) => if b then "1" else "0") (eq fuel x y x.length y.length)
+    let c := pairs.map fun (x, y) => showRes (fun (v : Int) => toString (Int.sign v)) (cmp fuel x y x.length y.length)
+    let i := ls.map fun x => if hasInf x then "inf" else
+      let s := showIter x x.length
+      if s.isEmpty then "-" else s
+    let m := ls.map showMsg
+    "E " ++ " ".intercalate e ++ " C " ++ " ".intercalate c ++ " I " ++ ";".intercalate i ++ " M " ++ " ".intercalate m
+
+def engine : Driver.Engine := Driver.stateless step
 end Driver.ArgvalEngine
